@@ -410,6 +410,7 @@ class World:
         import tenpy.version as ver_mod
         self.segment += 1
         fs = self.fs
+        fs.epoch += 1  # a new process: whatever file objects the previous one left behind are dead
         fs.frozen = False
         fs.crash_at = None
         fs.crash_tear = None
